@@ -45,6 +45,8 @@ pub enum E {
     Opt(Box<E>),
     Many(Box<E>),
     Sub(Vec<E>),
+    /// the expansion of a plain definition (transparent; keeps the boundary visible)
+    Def(Box<E>),
 }
 
 pub struct Ref<'g> {
@@ -114,7 +116,7 @@ impl<'g> Ref<'g> {
                     let body = dist(&body, &mut none);
                     let e = self.expand(&body, stack)?;
                     stack.pop();
-                    e
+                    E::Def(Box::new(e))
                 } else if let Some(c) = builtin_cmd(n, self.shell) {
                     E::Cmd(c.to_string(), self.shell == "zsh")
                 } else {
@@ -170,6 +172,7 @@ pub fn sem(e: &E, level: usize, in_word: bool, items: &mut Items) -> Result<R, R
             let r = sem(x, level, in_word, items)?;
             cat(r.clone(), star(r))
         }
+        E::Def(x) => sem(x, level, in_word, items)?,
         E::Sub(parts) => {
             let inner = cat_all(parts.iter().map(|x| sem(x, level, true, items)).collect::<Result<_, _>>()?);
             if in_word {
@@ -191,4 +194,144 @@ pub fn reference_language(gr: &Grammar, shell: &str) -> Result<(Dfa, Items), Ref
     let re = sem(&e, 0, false, &mut items)?;
     let d = dfa_of_regex(&re, &items).ok_or(RefErr::TooBig)?;
     Ok((d.canonical(), items))
+}
+
+// ---------------------------------------------------------------------------------------------
+// C08: which rejections the property prescribes for a grammar (semantic oracle)
+
+#[derive(Debug, Default, Clone)]
+pub struct Verdict {
+    /// classes of mistakes the grammar certainly contains (it must be rejected with one of
+    /// `must` or `may`)
+    pub must: BTreeSet<String>,
+    /// classes whose presence depends on a reading the property leaves open
+    pub may: BTreeSet<String>,
+    /// rejections the property does not prescribe but the code base is known to issue
+    /// (recorded in known_findings.json): class -> reason
+    pub known_spurious: BTreeMap<String, String>,
+    /// mistakes the property prescribes a rejection for but the code base is known to accept
+    pub known_missed: BTreeMap<String, String>,
+}
+
+/// last / first item of an expression; `through`: also look inside expanded definitions
+fn e_tail(e: &E, through: bool) -> &E {
+    match e {
+        E::Seq(v) | E::Sub(v) => v.last().map(|x| e_tail(x, through)).unwrap_or(e),
+        E::Def(x) if through => e_tail(x, through),
+        _ => e,
+    }
+}
+fn e_head(e: &E, through: bool) -> &E {
+    match e {
+        E::Seq(v) | E::Sub(v) => v.first().map(|x| e_head(x, through)).unwrap_or(e),
+        E::Def(x) if through => e_head(x, through),
+        _ => e,
+    }
+}
+fn adjacent_literals(v: &[E], through: bool) -> bool {
+    v.windows(2).any(|p| matches!(e_tail(&p[0], through), E::Lit(..)) && matches!(e_head(&p[1], through), E::Lit(..)))
+}
+
+/// walk an expanded expression; `in_word`: inside a within-word expression
+fn walk_words(e: &E, in_word: bool, in_def: bool, v: &mut Verdict, words: &mut Vec<E>) {
+    match e {
+        E::Lit(..) | E::Cmd(..) | E::Star(_) => {}
+        E::Seq(c) => {
+            if in_word && adjacent_literals(c, false) {
+                // two space-separated literals inside a word
+                v.must.insert("SubwordSpaces".into());
+            } else if in_word && adjacent_literals(c, true) {
+                // ... where one of them is the first / last literal of a nonterminal's definition
+                if in_def {
+                    v.must.insert("SubwordSpaces".into());
+                } else {
+                    // only detected by the code base when the sequence itself sits in a definition
+                    v.known_missed.insert("SubwordSpaces".into(), "literal-at-the-edge-of-a-definition-referenced-from-a-call-variant".into());
+                }
+            }
+            c.iter().for_each(|x| walk_words(x, in_word, in_def, v, words));
+        }
+        E::Sub(c) => {
+            if adjacent_literals(c, false) {
+                // juxtaposed parts whose neighbouring ends are both literals (e.g. `x(a b)`,
+                // `x((y) "d")`): the property speaks of space-separated literals only
+                v.may.insert("SubwordSpaces".into());
+            }
+            if !in_word {
+                words.push(e.clone());
+            }
+            c.iter().for_each(|x| walk_words(x, true, in_def, v, words));
+        }
+        E::Alt(c) | E::Fb(c) => c.iter().for_each(|x| walk_words(x, in_word, in_def, v, words)),
+        E::Opt(x) | E::Many(x) => walk_words(x, in_word, in_def, v, words),
+        E::Def(x) => walk_words(x, in_word, true, v, words),
+    }
+}
+
+fn conflicting_descriptions(d: &Dfa) -> bool {
+    for m in &d.trans {
+        let mut by_text: BTreeMap<&str, BTreeSet<&str>> = BTreeMap::new();
+        for a in m.keys() {
+            if let Some(rest) = a.strip_prefix("L:") {
+                let mut p = rest.rsplitn(3, '|');
+                let _level = p.next();
+                let descr = p.next().unwrap_or("");
+                let text = p.next().unwrap_or("");
+                by_text.entry(text).or_default().insert(descr);
+            }
+        }
+        if by_text.values().any(|s| s.len() > 1) {
+            return true;
+        }
+    }
+    false
+}
+
+pub fn expected_verdict(gr: &Grammar, shell: &str) -> Option<Verdict> {
+    let mut r = Ref::new(gr, shell);
+    let e = r.root(gr).ok()?;
+    let mut v = Verdict::default();
+    let mut words = vec![];
+    walk_words(&e, false, false, &mut v, &mut words);
+    for w in &words {
+        let mut items = Items::default();
+        let E::Sub(parts) = w else { continue };
+        let inner = cat_all(parts.iter().map(|x| sem(x, 0, true, &mut items)).collect::<Result<_, _>>().ok()?);
+        let d = dfa_of_regex(&inner, &items)?.canonical();
+        // a placeholder inside a word that something can follow
+        for m in &d.trans {
+            if let Some(t) = m.get("S") {
+                if !d.trans[*t].is_empty() {
+                    v.must.insert("UnboundedMatchable".into());
+                }
+                // the placeholder is the last item, but at the same point another item can be
+                // read instead and something follows that item (e.g. `[a]<U>`, `(a|<U>)`+...)
+                if m.iter().any(|(a, q)| a != "S" && !d.trans[*q].is_empty()) {
+                    v.known_spurious.insert("UnboundedMatchable".into(), "placeholder-beside-an-item-that-is-followed".into());
+                }
+            }
+        }
+        if conflicting_descriptions(&d) {
+            v.must.insert("ConflictingDescriptions".into());
+        }
+    }
+    if v.must.is_empty() && v.may.is_empty() {
+        let mut items = Items::default();
+        let re = sem(&e, 0, false, &mut items).ok()?;
+        let d = dfa_of_regex(&re, &items)?.canonical();
+        if conflicting_descriptions(&d) {
+            v.must.insert("ConflictingDescriptions".into());
+        }
+    } else {
+        // the main automaton may hold a conflict as well; which mistake is reported first is not prescribed
+        let mut items = Items::default();
+        if let Ok(re) = sem(&e, 0, false, &mut items) {
+            if let Some(d) = dfa_of_regex(&re, &items) {
+                if conflicting_descriptions(&d.canonical()) {
+                    v.may.insert("ConflictingDescriptions".into());
+                }
+            }
+        }
+    }
+    Some(v)
 }
